@@ -457,7 +457,11 @@ def run (ctx):
       if hit: resets.append((f_, gl, n))
   uncond = [(f_, n) for f_, gl, n in resets if gl.postdominates([n], gl.entry)]
   if any(nm_ in smod.funcs for nm_ in ('_handle_ConnectionUp', '_handle_openflow_ConnectionUp')):
-    ctx.ob('R-EFFECT', smod.short + ':_prev', "what is remembered about a switch's flood bits is forgotten when its connection comes up or goes down", bool(uncond),
+    # the rule reads the per-switch form _prev[dpid][port]; kept flat (keyed by (dpid, port)) "forget this switch" is a sweep over the
+    # keys, which it does not follow
+    pv_ = smod.assigns.get('_prev')
+    nested_prev = pv_ is not None and 'defaultdict' in norm(pv_)
+    ctx.ob('R-EFFECT', smod.short + ':_prev', "what is remembered about a switch's flood bits is forgotten when its connection comes up or goes down", bool(uncond) if (uncond or nested_prev) else None,
            "%s: `%s` on every path" % (uncond[0][0].name, uncond[0][1].text(40)) if uncond else
            "no connection-up/down handler forgets _prev[dpid]%s: when a switch reconnects with all ports flooding, port-mods that would disable flooding on its non-tree ports are skipped as 'already sent' - a flooded frame loops"
            % (" (a reset elsewhere only runs for switches still present in the computed tree)" if any('_prev' in norm(x) and call_name(x) in ('pop', 'clear') for x in calls_in(ut.node)) else ""), life[0] if life else ut, 'D3')
@@ -543,7 +547,7 @@ def run (ctx):
     reach_diff = pmn[0] in q.reach_under_cp(repo, smod, g3, scen(True, False, remembered_same=False), None)
     ctx.ob('R-DOM', ut, "a port-mod is skipped only when the remembered bit equals the new one", reach_diff and not reach_same,
            "sent iff the remembered bit differs" if reach_diff and not reach_same else "port-mod reachable with equal remembered bit: %s, with a different one: %s" % (reach_same, reach_diff), ut, 'D3')
-  upd = [q.enclosing_stmt_node(g3, st) for t, v, st, k in q.stores_in(ut.node) if norm(t) == '_prev[sw][p.port_no]' and v is not None and norm(v) == 'flood']
+  upd = [q.enclosing_stmt_node(g3, st) for t, v, st, k in q.stores_in(ut.node) if norm(t) in ('_prev[sw][p.port_no]', '_prev[sw, p.port_no]', '_prev[(sw, p.port_no)]') and v is not None and norm(v) == 'flood']
   snd_ = g3.nodes_with_call(lambda c: call_name(c) == 'send')
   ctx.ob('R-EFFECT', ut, "the remembered bit is updated whenever a port-mod is sent", bool(upd) and bool(snd_) and (g3.dominates(upd[0], snd_[0]) or g3.postdominates(upd[0], snd_[0])), "_prev updated with the send", ut, 'D3')
   # the bit is remembered before the port-mod goes out: when the send fails, whoever catches the failure forgets what was remembered
@@ -568,6 +572,7 @@ def run (ctx):
     virt = pmn[0] in q.reach_under(repo, smod, g3, q.Env({}, msv), None)
     ctx.ob('R-DOM', ut, "only physical ports are touched", not virt, "port-mod unreachable for port_no >= OFPP_MAX" if not virt else "a port-mod can be sent for a virtual port number", ut, 'D3')
   # ---- D4 symmetric choice -----------------------------------------------------------------------------------
+  q.inline_container_aliases(cst.node, 'adj')      # `from_s1 = adj[s1]`: the rules speak of adj[s1][s2]
   g4 = q.cfg_of(cst)
   w12 = [(st, v) for t, v, st, k in q.stores_in(cst.node, nested=False) if norm(t) == 'adj[s1][s2]' and v is not None]
   w21 = [(st, v) for t, v, st, k in q.stores_in(cst.node, nested=False) if norm(t) == 'adj[s2][s1]' and v is not None]
